@@ -47,5 +47,21 @@ SPEC = {
     "harness_timeout": 2400,
 }
 MUTATIONS = """
-(filled in after the dry-runs)
+Dry-runs on a scratch copy (VERIF_REPO=/var/tmp/mC35 ./check C35 quick, known findings loaded); every mutation also changes a
+regenerated fact (facts-only sensitivity checked for m1-m11), so C35_facts_ok / genX_eq stop checking in each case.
+m1  checkRuleHashesOfType: `len(h) == hasher.Size()*2` -> `== hasher.Size()`            exit 1: VIOLATION correct-hash-rejected (failing input:
+    corpus corner-cases, rebuild after a rejected restore), 20/25 obligations, correspondence agrees (model follows lenMult=1)
+m2  calculateAndCheckRuleHash: VerifyHashes gate no longer returns the error            exit 1: VIOLATION wrong-hash-accepted (+ output-left…),
+    34 disagreements, 92 oracle failures
+m3  retrieveArtifacts: verification error only logged (no RemoveOutputs / return false)  exit 1: VIOLATION wrong-hash-accepted (poisoned restore
+    accepted; failing input from corpus corner-cases), 6 disagreements
+m4  UnprefixedHashes: LastIndexByte -> IndexByte                                         exit 1: VIOLATION unprefix-differs-from-spec +
+    correct-hash-rejected (`a:b:<v>` values), correspondence agrees (model follows lastColon=false)
+m5  Build: RemoveOutputs on error dropped                                                exit 1: VIOLATION output-left-after-failed-verification
+m6  checkRuleHashes first comparison: `h == hashStr` -> strings.EqualFold                exit 1: VIOLATION wrong-hash-accepted (upper-case value),
+    24 disagreements
+m7  buildTarget: storeInCache moved before calculateAndCheckRuleHash                     exit 1: VIOLATION failed-output-stored-in-cache, 25 disagreements
+h1  harmless: locals renamed in UnprefixedHashes and checkRuleHashes, independent statements reordered   exit 0, facts identical
+facts-only (extractor run on the mutated copy, FactsOK no longer true): m8 `combine := len(outputs) > 1`, m9 file names always written
+    in outputHash, m10 writeRuleHash before checkRuleHashes, m11 TrimSpace dropped.
 """
